@@ -18,7 +18,7 @@ CLAIMED = {
          "1..2 (3) arbitrary digits; flag arbitrary) and the real expandForks / resolveInputs / resolvePipelineOutputs (resolve, resolveRef, resolveSplit, "
          "resolveMerge, resolveDisabledExp, getParts, Path) must deliver exactly what the text says each call receives: dynamic map call over an array and over "
          "a typed map, unsplit arguments, merges, a map call nested in a mapped pipeline with producers finishing in any order, struct projection, literals "
-         "with references, a call disabled by an upstream flag, pipeline outputs. H_C01_disabledInMapped: a call disabled per element inside a mapped pipeline; H_C01_disabledSiblings: two sibling calls below three nested sub-pipelines, all five run-time flags symbolic; H_C01_constFromMapped: constants collected from a pipeline mapped over a run-time array of 0..2 (3) elements (dependency on the array's producer and one copy per element). H_C01_wholeCall: a whole call bound to a struct of narrower members (and an array of it, and as top-level output), int written as 3 or 3.0; constants or stage outputs handed through a mapped pipeline.",
+         "with references, a call disabled by an upstream flag, pipeline outputs. H_C01_disabledInMapped: a call disabled per element inside a mapped pipeline; H_C01_disabledSiblings: two sibling calls below three nested sub-pipelines, all five run-time flags symbolic; H_C01_constFromMapped: constants collected from a pipeline mapped over a run-time array of 0..2 (3) elements (dependency on the array's producer and one copy per element). H_C01_wholeCall: a whole call bound to a struct of narrower members (and an array of it, and as top-level output), int written as 3 or 3.0; constants or stage outputs handed through a mapped pipeline. H_C01_zipLengths (a call mapped over two run-time arrays of 0..2 (3) elements each), H_C01_disabledByMember (a call disabled by a member of its run-time element).",
          "Trusted: go/ssa, symgo, z3; the reference JSON decoder that replaces encoding/json for the value shapes the harness produces; Metadata.read "
          "replaced by the harness's choice of _outs. Outside: other programs, strings/floats/nested structs as values, more than two fork dimensions, "
          "top-level _outs writing.",
@@ -60,7 +60,7 @@ CLAIMED = {
  "C06": ("Partial (scheduler decision kernel): faults are symbolic sentinel files and stub verdicts — _errors/_assert in any combination, "
          "unreadable or invalid outputs, unparseable _stage_defs. Asserted: failure precedence, a failed job fails its fork and node, a failed "
          "node stays on the frontier and the pipestance state is failed never complete, consumers wait and submit nothing, independent stages "
-         "are unaffected, invalid outputs write _errors and never _complete; LocalJobManager.Enqueue with the job process replaced by an arbitrary outcome per attempt leaves _errors behind for every failed process, re-runs only spawn failures and at most maxRetries times. H_C06_restartMapped (no fork reports complete after a reset unless its _complete is still there), H_C06_dynamicForkError (the error of any job of a run-time fork is reported by name, whatever the other forks do), H_C06_splitRetry (n1, n2 in 0..3).",
+         "are unaffected, invalid outputs write _errors and never _complete; LocalJobManager.Enqueue with the job process replaced by an arbitrary outcome per attempt leaves _errors behind for every failed process, re-runs only spawn failures and at most maxRetries times. H_C06_restartMapped (no fork reports complete after a reset unless its _complete is still there), H_C06_dynamicForkError (the error of any job of a run-time fork is reported by name, whatever the other forks do), H_C06_splitRetry (n1, n2 in 0..3). H_C06_clusterRetry (in-process retry in cluster mode with a job waiting for a slot), H_C06_nullChunkDef (null chunk definitions).",
          "Trusted: go/ssa, symgo, z3; the OS-boundary and AST/JSON stubs listed in the evidence (each returns an arbitrary outcome within its contract); the assumed representation invariant PhaseInv; the hand-built graph (one fork per node, <=2 chunks, P{PRE,A,C,Q{R{B}}}) and the MRO text of the real-graph fixture (instantiated by the real compiler and runtime inside the engine). Dynamic fork expansion and static fork enumeration run on instantiated pipelines (H_C01_*). Outside: real processes and job-manager queues. Also outside: mrjob (how the monitor turns an exit status into _errors), transient-error regexps and mrp attemptRetry, mrp exit code, restart after the fault is removed.", "DESIGN.md §4 (C06)"),
  "C07": ("Partial (one binding between two stages over a 13-type family): for every pair (DST, SRC) of int, float, string, bool, a file type, int[], float[], int[][], "
          "map<int>, map<float>, two structs (one a superset of the other) and an array of structs the program text `CONSUMER(x = PRODUCER.o)` is generated and compiled by "
@@ -74,7 +74,7 @@ CLAIMED = {
          "expression parser (yacc tables + grammar actions); 19/20-digit integer tokens and 8-hex-digit \\U escapes get their own harnesses. "
          "Include resolution (parseSource/getIncludes/checkIncludes/merge) runs on 1..3 (4) files with an arbitrary include relation: an error exactly for reachable cycles, no unbounded recursion. "
          "An uncaught Go panic on any path is a violation with concrete bytes, replayed natively. Partial: lexer contract and "
-         "token-consuming actions, not arbitrary long token sequences. H_C08_compileCorners: seven programs which used to crash the compiler (mutual recursion, 1e39 resources, ...) end with an error or a result.",
+         "token-consuming actions, not arbitrary long token sequences. H_C08_compileCorners: seven programs which used to crash the compiler (mutual recursion, 1e39 resources, ...) end with an error or a result. H_C08_mismatchText: strings of 1..12 characters of 1-4 bytes bound to an int parameter in 3 positions.",
          "Trusted: go/ssa, symgo, regex VM model, z3 / cvc5 --solve-bv-as-int (integer-token harness). The numeric value of a "
          "symbolic float literal is cut to an opaque value (float range errors outside). Outside: long inputs, larger include "
          "graphs, compile passes, time/memory proportionality.",
@@ -101,7 +101,7 @@ CLAIMED = {
          "DESIGN.md §4 (C16)"),
  "C10": ("Partial (order-independence of the emitters): every range over a Go map in the executed code picks an arbitrary permutation "
          "(engine-level nondeterminism); map expressions, binding maps, argument maps, metadata listings and job-script environment blocks with "
-         "2-3 distinct symbolic keys are emitted twice and the solver shows the two outputs are byte-identical on every pair of orders. Ten repository test programs are compiled, formatted and resolved under two fixed engine map orders and Go's random order (native replay) with equal results. Four ghost map orders (insertion, reverse, ascending and descending key) in H_SELF_compile / H_SELF_instantiate, six wide-map fixtures, H_C10_resolveErrors (error text of unresolvable parameters).",
+         "2-3 distinct symbolic keys are emitted twice and the solver shows the two outputs are byte-identical on every pair of orders. Ten repository test programs are compiled, formatted and resolved under two fixed engine map orders and Go's random order (native replay) with equal results. Four ghost map orders (insertion, reverse, ascending and descending key) in H_SELF_compile / H_SELF_instantiate, six wide-map fixtures, H_C10_resolveErrors (error text of unresolvable parameters). H_C10_validateText (ValidateOutputs / ValidateInputs text under four map orders); eight map-order fixtures.",
          "Trusted: go/ssa, symgo (map-order model), z3. Static fork-id enumeration over a map source (MakeForkIds) is sorted under every iteration order. Outside: whole-pipeline Format/MakeCallGraph identity, error-message order, "
          "cross-process repetition.",
          "DESIGN.md §4 (C10)"),
@@ -125,7 +125,7 @@ CLAIMED = {
  "C19": ("Partial (reference rewriting of rename edits): the real updateRef/updateRefInExp on references with symbolic ids, output paths and "
          "old/new names, and RenameCallable with its edits applied to a hand-built pipeline AST (argument, nested-output, disabled, return and "
          "retain references; alias collision; reverse rename). The solver shows every reference that named the renamed call still names it, "
-         "nothing else changes, and X->Y->X restores the names. Refactor with TopCalls (removal of unused outputs to a fixed point) on a three-level pipeline: the edit applied to a fresh parse, formatted and recompiled still compiles and the top-level call resolves to the same stage inputs and outputs. H_C19_unusedShapes: --top-calls with and without --remove-unused-calls around pipelines nobody reads from; H_C19_renameRoundTrip: rename there and back on real text (alias equal to the new name is a known finding). H_C19_wildcards: 8 renames across wildcard bindings at two levels.",
+         "nothing else changes, and X->Y->X restores the names. Refactor with TopCalls (removal of unused outputs to a fixed point) on a three-level pipeline: the edit applied to a fresh parse, formatted and recompiled still compiles and the top-level call resolves to the same stage inputs and outputs. H_C19_unusedShapes: --top-calls with and without --remove-unused-calls around pipelines nobody reads from; H_C19_renameRoundTrip: rename there and back on real text (alias equal to the new name is a known finding). H_C19_wildcards: 8 renames across wildcard bindings at two levels. Removals across wildcards, an unused call beside a bare wildcard, H_C19_twoFiles (two unrelated files in one edit).",
          "Trusted: go/ssa, symgo, z3, the fixed AST shape and fixture text. Outside: removal of unused calls, other programs, "
          "input/output renames across files.",
          "DESIGN.md §4 (C19)"),
@@ -135,7 +135,7 @@ CLAIMED = {
          "two files, a struct member, a typed-map value) is arbitrarily null, empty, a file inside the pipestance, never written, a file outside, a relative or an "
          "absolute symlink. Asserted: every existing output is reachable under outs/ with its identity, the rewritten _outs designates it, the reported location "
          "still leads to it, inside files are moved not linked, missing ones become null, non-file values are untouched, no file is lost or duplicated, nothing "
-         "outside the pipestance changes. H_C13_array2d: two-dimensional arrays of files as top-level outputs. H_C05_postProcessResumed (a file already moved by an interrupted run).",
+         "outside the pipestance changes. H_C13_array2d: two-dimensional arrays of files as top-level outputs. H_C05_postProcessResumed (a file already moved by an interrupted run). H_C13_pathOutput: directory outputs (5 variants) on a model with symlinked parents and directory renames.",
          "Trusted: go/ssa, symgo, z3, the file-system model and the reference JSON decoder (both in the harness, both part of the claim). Outside: the real "
          "file system (permissions, I/O errors, hard links, links in directory components), compile-time output-name rules, multi-fork top-level calls, directories "
          "as outputs.",
